@@ -38,6 +38,10 @@ def configs(tier):
     out.append({"mode": "bmc", "depth": 3, "alen": 1, "families": FAMILIES[:4]})
     if tier != "quick":
         out.append({"mode": "bmc", "depth": 3, "alen": 1})
+    # two distinct vertices that carry the same caller-supplied uid (uid= is unchecked; copies keep it)
+    out.append({"mode": "bmc", "depth": 2, "alen": 1, "families": FAMILIES[:4], "same_uid": True})
+    # two vertices constructed from ONE caller-owned `universes=` list object, then a membership call
+    out.append({"mode": "shared_arg", "alen": 2})
     return out
 
 
@@ -136,10 +140,35 @@ def do_step(B, fam, objs, unis, tag, alen=3):
     return out
 
 
+PROG_SHARED = '''
+from edgegraph.structure import Vertex
+home = list(arg)
+va = Vertex(universes=home)
+vb = Vertex(universes=home)
+'''
+
+
 def scenario(B, p):
-    verts = [B.new("a", "Vertex"), B.new("b", "Vertex")]
+    if p.get("same_uid"):
+        verts = [B.new("a", "Vertex", uid=7), B.new("b", "Vertex", uid=7)]
+    else:
+        verts = [B.new("a", "Vertex"), B.new("b", "Vertex")]
     unis = [B.new("U0", "Universe"), B.new("U1", "Universe")]
     objs = verts + unis
+    if p["mode"] == "shared_arg":
+        out = B.run(PROG_SHARED, {"arg": B.reflist("arg", unis, p["alen"], p["alen"])})
+        objs = objs + [B.label(out["va"], "va"), B.label(out["vb"], "vb")]
+        B.prove("Inv02 after two constructions from one list", inv02(B, objs, unis))
+        fam = FAMILIES[B.choice("s0.op", 4)]
+        out = do_step(B, fam, objs, unis, "s0.", 1)
+        B.observe("raised", out["raised"])
+        for k, v in state_obs(B, objs, unis).items():
+            B.observe(k, v)
+        B.reach("bmc:step")
+        B.prove(f"Inv02 after {fam} (vertices built from one shared list)", inv02(B, objs, unis))
+        B.prove(f"raises exactly when a non-member is removed ({fam}, shared list)", out["raise_ok"])
+        B.prove(f"membership lists equal the reference step's ({fam}, shared list)", out["lists_ok"])
+        return
     if p["mode"] == "ind":
         K = p["K"]
         for o in objs:
